@@ -1848,10 +1848,94 @@ def gen_C16(rng, tier):
         L.append("dv axle:%d -- ra oa u:0 ra" % n)
         if n >= 1:
             L.append("dv axle:%d -- ss:%d:%s sc:%d:%s u:0 oa ra" % (n, n - 1, datum_state(rng, 3), 0, datum_cmd(rng, 4)))
+    # "no Reference outlives the object it points to", for References made by safe code (the counted variants): every way of making
+    # 1..3 further handles by clone / to_dyn!, then the handles dropped in every order with the target's liveness asked after each drop
+    # and a read through a surviving handle
+    import itertools
+    for v in ("rc", "arw", "amx"):
+        makers = ("cl", "dy") if v == "rc" else ("cl",)
+        for k in (1, 2, 3):
+            for mk in itertools.product(makers, repeat=k):
+                for srcs in itertools.product(*[range(i + 1) for i in range(k)]):
+                    make = ["%s:%d" % (m, h) for m, h in zip(mk, srcs)]
+                    orders = list(itertools.permutations(range(k + 1)))
+                    for order in (orders if len(orders) <= 6 else rng.sample(orders, 6)):
+                        evs = list(make) + ["wr:0:%d" % rng.randint(1, 99)]
+                        for j, h in enumerate(order):
+                            evs += ["dr:%d" % h, "live"]
+                            if j + 1 < len(order):
+                                evs.append("rd:%d" % order[-1])
+                        L.append("rf %s %s" % (v, " ".join(evs)))
     return L
 
 
 # =========================================================================== C17
+RF_RAW = {"rc": "ptr", "arw": "prw", "amx": "pmx"}
+RF_ARMS = ("ptr", "rc", "prw")
+
+
+def rf_ext_line(rng, v):
+    """a VALID `rf` line over the extended alphabet {cl, dy, dm (to_dyn! of the moved handle), al (raw alias), cf (clone_from), rd, wr,
+    inc, dr, live}: the simulation below mirrors the harness's own pre-check (dead handles, target freed once the last OWNING handle is
+    gone, clone_from only between handles of one static type); an op that panics (to_dyn! without an arm) ends the line"""
+    counted = v in RF_RAW
+    hs = [dict(own=counted, dyn=False, var=v)]
+    freed = False
+    evs = []
+    def drop_one(x):
+        nonlocal freed
+        if counted and x["own"] and not any(h and h["own"] for h in hs):
+            freed = True
+    for _ in range(rng.randint(2, 14)):
+        live = [i for i, h in enumerate(hs) if h]
+        if not live:
+            break
+        h = rng.choice(live)
+        r = rng.random()
+        if r < 0.13:
+            evs.append("cl:%d" % h); hs.append(dict(hs[h]))
+        elif r < 0.23:
+            op = "dy" if rng.random() < 0.5 else "dm"
+            evs.append("%s:%d" % (op, h))
+            if hs[h]["var"] not in RF_ARMS:
+                return "rf %s %s" % (v, " ".join(evs))          # PANIC:unimpl ends the line
+            n = dict(hs[h]); n["dyn"] = True
+            if op == "dm":
+                hs[h] = None
+            hs.append(n)
+        elif r < 0.36:
+            if freed: continue
+            n = dict(hs[h]); n["own"] = False; n["var"] = RF_RAW.get(n["var"], n["var"])
+            evs.append("al:%d" % h); hs.append(n)
+        elif r < 0.52:
+            cands = [j for j in live if j != h and hs[j]["dyn"] == hs[h]["dyn"]]
+            if not cands: continue
+            j = rng.choice(cands)
+            old = hs[h]
+            hs[h] = dict(hs[j])
+            drop_one(old)
+            evs.append("cf:%d:%d" % (h, j))
+        elif r < 0.64:
+            if freed: continue
+            evs.append("rd:%d" % h)
+        elif r < 0.72:
+            if freed: continue
+            evs.append("wr:%d:%d" % (h, rng.randint(-1000, 1000)))
+        elif r < 0.78:
+            if freed: continue
+            evs.append("inc:%d" % h)
+        elif r < 0.92:
+            x = hs[h]; hs[h] = None
+            drop_one(x)
+            evs.append("dr:%d" % h)
+        else:
+            evs.append("live")
+        if rng.random() < 0.25:
+            evs.append("live")
+    evs.append("live")
+    return "rf %s %s" % (v, " ".join(evs))
+
+
 def gen_C17(rng, tier):
     L = []
     for v in ["ptr", "rc", "prw", "pmx", "arw", "amx"]:
@@ -1882,6 +1966,14 @@ def gen_C17(rng, tier):
             evs.append("live")
             L.append("rf %s %s" % (v, " ".join(evs)))
         L.append("rf %s dy:0 rd:1" % v)
+        L.append("rf %s dm:0 rd:1 live" % v)
+        for _ in range(n_of(tier, 150, 1500)):
+            L.append(rf_ext_line(rng, v))
+    # clone_from onto a raw alias must make it an owner: every counted variant, with and without further clones, source dropped afterwards
+    for v in ["rc", "arw", "amx"]:
+        L.append("rf %s al:0 cf:1:0 dr:0 live rd:1 wr:1:5 rd:1 dr:1 live" % v)
+        L.append("rf %s cl:0 al:1 cf:2:1 dr:0 dr:1 live inc:2 rd:2 dr:2 live" % v)
+        L.append("rf %s al:0 cl:0 cf:2:1 live rd:2 dr:0 live" % v)          # clone_from FROM a raw alias: the slot gives its share up
     for v in ["arw", "amx", "prw", "pmx"]:
         for n in ([2, 4, 8] if tier == "quick" else [2, 3, 4, 5, 6, 7, 8]):
             L.append("rf thr %s %d %d" % (v, n, n_of(tier, 1000, 100000)))
